@@ -168,6 +168,9 @@ def run_stateful(ctx, profiles, monitor, proj, rule, trusted, corpus=(), extra_f
                 mism.append((sc, k, d))
                 break
     searched = 0
+    # laws listed as known findings must not switch the correspondence check off
+    known = {f["key"] for f in ctx.load_findings() if f["property"] == ctx.pid}
+    fails = [f for f in fails if f[1] not in known]
     if mism and not fails:
         # failing-input search: shrink the disagreeing history, then mutate around it with the monitor as oracle
         sc, k, d = min(mism, key=lambda x: len(x[0].ops))
@@ -190,6 +193,8 @@ def run_stateful(ctx, profiles, monitor, proj, rule, trusted, corpus=(), extra_f
                 for c in pool:
                     if c.id in im2 and len(im2[c.id]) == len(c.ops):
                         for law, kk, detail in mon(c, im2[c.id]):
+                            if law in known:
+                                continue
                             ctx.violation("monitor", law, "law %s fails on the implementation's trace: %s" % (law, detail),
                                           {"head": c.head, "ops": c.ops[:kk + 1], "law": law, "detail": detail,
                                            "found_by": "search near a correspondence mismatch"})
